@@ -20,6 +20,7 @@ func c09Gen(r *kit.Rng) *histScenario {
 	st, _ := store.New(sk)
 	caps := st.Caps()
 	caps.MaxNodes = r.Range(8, 22)
+	caps.ChoiceDefaults = true
 	s := schema.Generate(r, caps, "m", true, false)
 	s.RpcMirror = r.Chance(1, 4)
 	o := st.GenOpts()
